@@ -8,6 +8,7 @@ package c29
 
 import (
 	"fmt"
+	"math"
 	"os"
 	"sort"
 	"strings"
@@ -155,6 +156,14 @@ func (o opRec) String() string {
 var keySpace = []interface{}{0, 1, 2, "a", "b"}
 
 // bounds 0-4 / 0-6, biased away from the degenerate zero bound so that caches fill up
+// drawMaxWeight: small bounds, and - one case in eight - the values callers use for "no weight limit"
+func drawMaxWeight(t *rapid.T) uint {
+	if rapid.IntRange(0, 7).Draw(t, "noWeightLimit") == 0 {
+		return rapid.SampledFrom([]uint{math.MaxUint64, 1 << 63, 1<<63 - 1, math.MaxUint32, math.MaxInt64}).Draw(t, "hugeMaxWeight")
+	}
+	return uint(rapid.SampledFrom(weightBounds).Draw(t, "maxWeight"))
+}
+
 var (
 	sizeBounds   = []int{0, 1, 2, 2, 3, 3, 3, 4, 4, 4}
 	weightBounds = []int{0, 1, 2, 3, 3, 4, 4, 5, 5, 6, 6, 6}
@@ -201,7 +210,7 @@ func propC29(t *rapid.T) {
 
 	m := &model{
 		maxS: rapid.SampledFrom(sizeBounds).Draw(t, "maxSize"),
-		maxW: uint(rapid.SampledFrom(weightBounds).Draw(t, "maxWeight")),
+		maxW: drawMaxWeight(t),
 	}
 	cbMode := rapid.IntRange(0, 7).Draw(t, "callbacks") // 0: simple without, 1: wlru without, else both with
 
@@ -308,6 +317,9 @@ func propC29(t *rapid.T) {
 	drawKey := func(t *rapid.T) interface{} { return rapid.SampledFrom(keySpace).Draw(t, "key") }
 	// weights 0..maxWeight+2; three out of four are light (<= maxWeight/2) so that several entries coexist
 	drawWeight := func(t *rapid.T) uint {
+		if m.maxW > 1<<20 {
+			return uint(rapid.IntRange(0, 8).Draw(t, "weight")) // "no weight limit"
+		}
 		hi := int(m.maxW) + 2
 		if rapid.IntRange(0, 3).Draw(t, "heavy") != 0 {
 			hi = int(m.maxW) / 2
@@ -567,6 +579,13 @@ func propC29(t *rapid.T) {
 				}
 				if !ok {
 					fail(im, "Keys() = %v, model order oldest->newest is %v", keys, m.items)
+				}
+				// the returned list is the caller's: it may do with it what it likes
+				for i, j := 0, len(keys)-1; i < j; i, j = i+1, j-1 {
+					keys[i], keys[j] = keys[j], keys[i]
+				}
+				if len(keys) > 0 {
+					keys[0] = "overwritten by the caller"
 				}
 			}
 		},
